@@ -8,5 +8,7 @@ CONSTANTS
   Mutant = "none"
   MaxNodes = 4
   WithQuit = TRUE
+  WithErr = FALSE
+  WithSkip = FALSE
 INVARIANT Safety
 
